@@ -781,6 +781,12 @@ class mark_step_pending:
     modifies = []
     loops = {0: LoopSpec()}
 
+    @staticmethod
+    def ensures(self, step):
+        if cur().data.get("active") != "stepup/core/workflow.py::Workflow.mark_step_pending":
+            cur().event("mark_step_pending", step=step)  # callers see the call as an effect
+        return True
+
 
 # ---------------------------------------------------------------- DirectorHandler.amend_step: defer iff not runnable
 
